@@ -336,4 +336,217 @@ theorem destinationOf_fold {ir : IRQuery} (hd : EidsDistinct ir) {c : Component}
     destinationOf ir f.eid = some (VInfo.ofFold f) := by
   simp [destinationOf, findEdgeIn_fold hd hc hf]
 
+
+
+/-- the verdict of the static hints as a `Bool` (`true` when the hint computation fails) -/
+def keepB (ir : IRQuery) (args : List (Name × Value)) (D : Data) (i : VInfo) (x : VertexId) : Bool :=
+  match passesStatic ir args D i x with
+  | .ok b => b
+  | _ => true
+
+theorem filterR_ok {α : Type} {f : α → R Bool} {g : α → Bool} {l : List α}
+    (h : ∀ x ∈ l, f x = .ok (g x)) : filterR f l = .ok (l.filter g) := by
+  induction l with
+  | nil => rfl
+  | cons x xs ih =>
+    simp only [filterR, h x (by simp), R.bind_ok, ih (fun y hy => h y (by simp [hy])), R.map,
+      List.filter_cons]
+
+theorem allR_true {α : Type} {f : α → R Bool} {l : List α} (h : ∀ x ∈ l, f x = .ok true) :
+    allR f l = .ok true := by
+  induction l with
+  | nil => rfl
+  | cons x xs ih => simp [allR, h x (by simp), ih (fun y hy => h y (by simp [hy]))]
+
+theorem keepB_nonBinding (ir : IRQuery) (args : List (Name × Value)) (D : Data) (i : VInfo)
+    (x : VertexId) (h : i.nonBinding = true) : keepB ir args D i x = true := by
+  unfold keepB passesStatic
+  cases locate ir i.vid with
+  | none => rfl
+  | some cv =>
+    obtain ⟨c, v⟩ := cv
+    simp only
+    rw [allR_true (fun p _ => by simp [staticallyRequired, h, R.map])]
+
+/-- The environment whose adapter prunes with the static hints. -/
+def envS (ir : IRQuery) (args : List (Name × Value)) (D : Data) : Env :=
+  { Env.ofData D args with adapter := pruneStaticAdapter ir args D }
+
+theorem envS_agree (ir : IRQuery) (args : List (Name × Value)) (D : Data) :
+    AgreeP (fun _ _ => true) (Env.ofData D args) (envS ir args D) :=
+  ⟨rfl, rfl, rfl, rfl, fun _ _ _ => rfl⟩
+
+/-- The hint computation does not panic (argument validation guarantees it: ordering variables are
+non-null, `one_of` / `not_one_of` variables are lists). -/
+def HintsTotal (ir : IRQuery) (args : List (Name × Value)) (D : Data) : Prop :=
+  ∀ (i : VInfo) (x : VertexId), (locate ir i.vid).isSome = true → ∃ b, passesStatic ir args D i x = .ok b
+
+theorem passes_eq_keepB {ir : IRQuery} {args : List (Name × Value)} {D : Data} (ht : HintsTotal ir args D)
+    (i : VInfo) (x : VertexId) (hl : (locate ir i.vid).isSome = true) :
+    passesStatic ir args D i x = .ok (keepB ir args D i x) := by
+  obtain ⟨b, hb⟩ := ht i x hl
+  simp [keepB, hb]
+
+/-- what the pruning adapter answers at `resolve_neighbors` -/
+theorem envS_nbrs {ir : IRQuery} {args : List (Name × Value)} {D : Data} (ht : HintsTotal ir args D)
+    (eid : Eid) (i : VInfo) (hd : destinationOf ir eid = some i) (hl : (locate ir i.vid).isSome = true)
+    (t edge : Name) (ps : Params) (v : Option VertexId) :
+    (envS ir args D).adapter.nbrs eid t edge ps v =
+      .ok ((D.nbrsOpt v edge ps).filter (keepB ir args D i)) := by
+  simp only [envS, pruneStaticAdapter, hd]
+  exact filterR_ok (fun x _ => passes_eq_keepB ht i x hl)
+
+/-- keep contexts without an active vertex; test the active vertex otherwise -/
+def keepCtx (ir : IRQuery) (args : List (Name × Value)) (D : Data) (i : VInfo) (c : Ctx) : Bool :=
+  match c.active with
+  | some n => keepB ir args D i n
+  | none => true
+
+theorem flatMapR_filter {α β : Type} {g g' : α → R (List β)} (k : β → Bool) {l : List α} {mid : List β}
+    (h : ∀ c ∈ l, ∀ r, g c = .ok r → g' c = .ok (r.filter k)) (hm : flatMapR g l = .ok mid) :
+    flatMapR g' l = .ok (mid.filter k) := by
+  induction l generalizing mid with
+  | nil => simp [flatMapR] at hm ⊢; subst hm; simp
+  | cons x xs ih =>
+    simp only [flatMapR] at hm
+    cases hx : g x with
+    | ok r =>
+      rw [hx] at hm
+      cases hxs : flatMapR g xs with
+      | ok rs =>
+        rw [hxs] at hm; simp at hm; subst hm
+        simp only [flatMapR, h x (by simp) r hx, ih (fun c hc => h c (by simp [hc])) hxs,
+          List.filter_append]
+      | panic s => rw [hxs] at hm; simp at hm
+      | fuel => rw [hxs] at hm; simp at hm
+    | panic s => rw [hx] at hm; simp at hm
+    | fuel => rw [hx] at hm; simp at hm
+
+theorem expandOne_filter (ir : IRQuery) (args : List (Name × Value)) (D : Data) (i : VInfo)
+    (c : Ctx) (ns : List VertexId) (opt : Bool) (hopt : opt = true → i.nonBinding = true) :
+    expandOne c (ns.filter (keepB ir args D i)) opt = (expandOne c ns opt).filter (keepCtx ir args D i) := by
+  have hmap : (ns.map fun n => c.splitTo (some n)).filter (keepCtx ir args D i) =
+      (ns.filter (keepB ir args D i)).map fun n => c.splitTo (some n) := by
+    induction ns with
+    | nil => rfl
+    | cons n ns ih =>
+      simp only [List.map_cons, List.filter_cons, ih]
+      have : keepCtx ir args D i (c.splitTo (some n)) = keepB ir args D i n := rfl
+      rw [this]
+      cases keepB ir args D i n <;> rfl
+  cases opt with
+  | false =>
+    simp only [expandOne, Bool.and_false, Bool.or_false, List.filter_append, hmap]
+    congr 1
+    cases c.active.isNone <;> simp [Ctx.splitTo] <;> rfl
+  | true =>
+    have hall : ns.filter (keepB ir args D i) = ns :=
+      List.filter_eq_self.mpr (fun n _ => keepB_nonBinding ir args D i n (hopt rfl))
+    simp only [expandOne, List.filter_append, hmap, hall]
+    congr 1
+    split <;> simp [Ctx.splitTo] <;> rfl
+
+
+
+theorem mem_expandOne_active {c : Ctx} {ns : List VertexId} {opt : Bool} {x : Ctx} {n : VertexId}
+    (hx : x ∈ expandOne c ns opt) (hn : x.active = some n) : n ∈ ns := by
+  simp only [expandOne, List.mem_append, List.mem_map] at hx
+  rcases hx with ⟨m, hm, rfl⟩ | hx
+  · simp only [Ctx.splitTo, Option.some.injEq] at hn; subst hn; exact hm
+  · split at hx
+    · simp only [List.mem_singleton] at hx; subst hx; simp [Ctx.splitTo] at hn
+    · simp at hx
+
+theorem mem_nbrsOpt {D : Data} {v : Option VertexId} {edge : Name} {ps : Params} {n : VertexId}
+    (h : n ∈ D.nbrsOpt v edge ps) : ∃ y, n ∈ D.nbrs y edge ps := by
+  cases v with
+  | none => simp [Data.nbrsOpt] at h
+  | some y => exact ⟨y, h⟩
+
+section stages
+variable {ir : IRQuery} {args : List (Name × Value)} {D : Data}
+
+/-- `expand_non_recursive_edge` under the pruning adapter yields the plain expansion minus the
+contexts whose new active vertex the hints reject. -/
+theorem expandNonRecursive_pruned (ht : HintsTotal ir args D) (e : IREdge)
+    (hd : destinationOf ir e.eid = some (VInfo.ofEdge e))
+    (hl : (locate ir e.toVid).isSome = true) (t : Name) (ctxs mid : List Ctx)
+    (hm : expandNonRecursive (Env.ofData D args) t e ctxs = .ok mid) :
+    expandNonRecursive (envS ir args D) t e ctxs = .ok (mid.filter (keepCtx ir args D (VInfo.ofEdge e))) ∧
+      ∀ x ∈ mid, ∀ n, x.active = some n → ∃ y, n ∈ D.nbrs y e.name e.params := by
+  unfold expandNonRecursive at hm ⊢
+  constructor
+  · refine flatMapR_filter _ ?_ hm
+    intro c _ r hr
+    simp only [R.monad_bind, R.monad_pure] at hr ⊢
+    obtain ⟨c', hc', hr⟩ := R_bind_ok hr
+    rw [hc']
+    simp only [R.bind_ok, Env.ofData, Data.adapter] at hr
+    cases hr
+    simp only [R.bind_ok, envS_nbrs ht e.eid _ hd hl]
+    congr 1
+    apply expandOne_filter
+    intro ho; simp [VInfo.ofEdge, VInfo.nonBinding, ho]
+  · intro x hx n hn
+    obtain ⟨c, _, r, hr, hxr⟩ := flatMapR_ok_mem hm x hx
+    simp only [R.monad_bind, R.monad_pure] at hr
+    obtain ⟨c', hc', hr⟩ := R_bind_ok hr
+    simp only [R.bind_ok, Env.ofData, Data.adapter] at hr
+    cases hr
+    exact mem_nbrsOpt (mem_expandOne_active hxr hn)
+
+/-- Hypotheses of the global theorem: well-formedness of the IR as `IndexedQuery::try_from`
+enforces it, hints that do not panic, and data in which a property declared non-nullable is not
+null on the vertices the adapter returns for the corresponding starting edge / edge / fold. -/
+structure PruneHyp (ir : IRQuery) (args : List (Name × Value)) (D : Data) : Prop where
+  vids : VidsDistinct ir
+  eids : EidsDistinct ir
+  foldRoots : ∀ c ∈ subComps ir.rootComponent, ∀ f ∈ c.folds, f.toVid = f.component.root
+  total : HintsTotal ir args D
+  nnStart : ∀ v, ir.rootComponent.vertex? ir.rootComponent.root = some v →
+    ∀ x ∈ D.start ir.rootName ir.rootParams, NonNullOk D v x
+  nnEdge : ∀ c ∈ subComps ir.rootComponent, ∀ e ∈ c.edges, ∀ v, c.vertex? e.toVid = some v →
+    ∀ y, ∀ x ∈ D.nbrs y e.name e.params, NonNullOk D v x
+  nnFold : ∀ c ∈ subComps ir.rootComponent, ∀ f ∈ c.folds, ∀ v,
+    f.component.vertex? f.component.root = some v → ∀ y, ∀ x ∈ D.nbrs y f.name f.params, NonNullOk D v x
+
+theorem enterVertex_envS (comp : Component) (v : IRVertex) :
+    enterVertex (envS ir args D) comp v = enterVertex (Env.ofData D args) comp v :=
+  funext fun l => enterVertex_agree (envS_agree ir args D) comp v l (fun _ _ => rfl)
+
+/-- The edge stage (`expand_edge` of a non-recursive edge + entry into the new vertex). -/
+theorem expandEdge_nonrec_pruned (hyp : PruneHyp ir args D) (comp : Component)
+    (hc : comp ∈ subComps ir.rootComponent) (e : IREdge) (he : e ∈ comp.edges)
+    (hrec : e.recursive = none) (ctxs out : List Ctx)
+    (h : expandEdge (Env.ofData D args) comp e ctxs = .ok out) :
+    expandEdge (envS ir args D) comp e ctxs = .ok out := by
+  unfold expandEdge at h ⊢
+  cases hf : comp.vertex? e.fromVid with
+  | none => simp [hf] at h
+  | some fromV =>
+    cases htv : comp.vertex? e.toVid with
+    | none => simp [hf, htv] at h
+    | some toV =>
+      simp only [hf, htv, hrec] at h ⊢
+      obtain ⟨mid, hmid, h⟩ := R_bind_ok h
+      obtain ⟨htoV, hvid⟩ := vertex?_spec htv
+      have hloc : locate ir e.toVid = some (comp, toV) := by
+        rw [← hvid]; exact locate_of_distinct hyp.vids hc htoV
+      obtain ⟨h1, h2⟩ := expandNonRecursive_pruned hyp.total e (destinationOf_edge hyp.eids hc he)
+        (by simp [hloc]) fromV.typeName ctxs mid hmid
+      rw [h1, enterVertex_envS]
+      simp only [R.bind_ok]
+      apply (enterVertex_hom _ comp toV).filter_ok _ mid out h
+      intro x hx hk o ho
+      cases hxa : x.active with
+      | none => simp [keepCtx, hxa] at hk
+      | some n =>
+        simp only [keepCtx, hxa] at hk
+        obtain ⟨y, hy⟩ := h2 x hx n hxa
+        have hp : passesStatic ir args D (VInfo.ofEdge e) n = .ok false := by
+          rw [passes_eq_keepB hyp.total _ n (by simp [VInfo.ofEdge, hloc]), hk]
+        exact enterVertex_dropped ir D args (VInfo.ofEdge e) comp comp toV x n o hloc hp
+          (hyp.nnEdge comp hc e he toV htv y n hy) hxa ho
+end stages
+
 end TF.Engine
